@@ -1,0 +1,47 @@
+//go:build verif
+
+package crhttp
+
+// Contracts for package crhttp. Comments only; read by /verif (build tag "verif").
+
+//@ func panicf
+//@   requires UNREACHABLE: false
+//@   opt trusted panics
+//@ func prefixString
+//@   ensures E1 [C17]: result == cidrStrOf(ip, length)
+//@   opt trusted formats prefix/length with netip.PrefixFrom(...).String(); the text is modelled as cidrStrOf
+
+//@ func preference
+//@   requires P1 [C17]: prefValid(p)
+//@   ensures E1 [C17]: result == ite(p == 3, "low", ite(p == 0, "medium", "high"))
+//@   opt safety [C17]
+
+// C17: the JSON rendering covers every option kind CoreRAD can advertise
+// (optsKnown is exactly what the Plugin.Apply contracts can produce).
+//@ func packOptions
+//@   requires P1: optsKnown(opts) && forall(k, 0, len(opts), isType(opts[k], "*ndp.RouteInformation") ==> prefValid(as(opts[k], "*ndp.RouteInformation").Preference))
+//@   assigns new mem(crhttp.dnssl), new mem(crhttp.prefix), new mem(crhttp.rdnss), new mem(crhttp.route), new mem(crhttp.pref64), new mem(string)
+//@   loop 1 invariant L1 [C17]: 0 <= rangeindex + 1 && rangeindex + 1 <= len(opts)
+//@   loop 2 invariant L2 [C17]: 0 <= rangeindex2 + 1 && rangeindex2 + 1 <= len(ranged(2)) && 0 <= rangeindex1 + 1 && rangeindex1 + 1 < len(opts)
+//@   opt safety [C17]
+//@   opt frame [C17]
+
+//@ func packRA
+//@   requires P1: ra != nil && prefValid(ra.RouterSelectionPreference) && optsKnown(ra.Options) && forall(k, 0, len(ra.Options), isType(ra.Options[k], "*ndp.RouteInformation") ==> prefValid(as(ra.Options[k], "*ndp.RouteInformation").Preference))
+//@   requires P2: 0 <= ra.RouterLifetime && ra.RouterLifetime <= secs(9000) && 0 <= ra.ReachableTime && ra.ReachableTime <= secs(3600) && 0 <= ra.RetransmitTimer && ra.RetransmitTimer <= secs(3600)
+//@   assigns new heap(crhttp.routerAdvertisement), new mem(crhttp.dnssl), new mem(crhttp.prefix), new mem(crhttp.rdnss), new mem(crhttp.route), new mem(crhttp.pref64), new mem(string)
+//@   ensures E1 [C17]: result != nil && result.CurrentHopLimit == ra.CurrentHopLimit && result.ManagedConfiguration == ra.ManagedConfiguration && result.OtherConfiguration == ra.OtherConfiguration
+//@   ensures E2 [C17,C04]: result.RouterLifetimeSeconds == ra.RouterLifetime / 1000000000
+//@   opt safety [C17]
+//@   opt frame [C17]
+
+// Route gating (C17): /metrics iff debug.prometheus, /debug/pprof/* iff debug.pprof.
+//@ func NewHandler
+//@   assigns ghost.routes, new heap(http.ServeMux), new heap(crhttp.Handler)
+//@   ensures R1 [C17]: result != nil && isType(result.h, "*http.ServeMux")
+//@   ensures R2 [C17]: routeReg(ghost.routes, result.h.val, "/metrics") == cfg.Debug.Prometheus
+//@   ensures R3 [C17]: routeReg(ghost.routes, result.h.val, "/debug/pprof/") == cfg.Debug.PProf && routeReg(ghost.routes, result.h.val, "/debug/pprof/cmdline") == cfg.Debug.PProf && routeReg(ghost.routes, result.h.val, "/debug/pprof/profile") == cfg.Debug.PProf && routeReg(ghost.routes, result.h.val, "/debug/pprof/symbol") == cfg.Debug.PProf && routeReg(ghost.routes, result.h.val, "/debug/pprof/trace") == cfg.Debug.PProf
+//@   ensures R4 [C17]: routeReg(ghost.routes, result.h.val, "/_/api/interfaces")
+//@   ensures R5 [C17]: result.ifaces == cfg.Interfaces && result.state == state
+//@   opt safety [C17]
+//@   opt frame [C17]
